@@ -13,7 +13,13 @@ def validate_encoded(string):
       "{} is not a valid field content\n".format(repr(string)) +
       "(it contains newlines and/or tabs)")
 
-validate_decoded = validate_encoded
+def validate_decoded(obj):
+  if not isinstance(obj, str):
+    raise gfapy.TypeError(
+      "the class {} is incompatible with the datatype\n"
+      .format(obj.__class__.__name__)+
+      "(accepted classes: str)")
+  validate_encoded(obj)
 
 def unsafe_encode(obj):
   return str(obj)
